@@ -128,10 +128,13 @@ class C17(framework.PropertyCheck):
         # explicit persistent operations, then run
         if r.random() < 0.7:
             steps.append(('eval', 'eorg', r.choice(['(set-scope top)', "(alias q9 'top.cnt)", '(step 2)', '(define zz 5)',
-                                                   "(defmacro mm [a] `(+ ,a 1))", '(in-group "top.d_" (set-scope top))'])))
+                                                   "(defmacro mm [a] `(+ ,a 1))", '(in-group "top.d_" (set-scope top))',
+                                                   # library functions are variables like any other: what a history does to them ends with run
+                                                   '(set! reverse (fn [xs] xs))', '(set [sort (fn [l] l)] [car (fn [l] 0)])', '(set! sum (fn [l] -1))'])))
         prog = r.choice(["(list INDEX CS CG (defined? 'zz) (defined? 'w1) (signal? 'q9) LOCAL-SIGNALS)",
                          "(do (step 1) (list INDEX (in-scope \"top\" ~cnt) (defined? 'mm)))",
-                         '(list (find (= top.clk 1)) INDEX top.cnt)'])
+                         '(list (find (= top.clk 1)) INDEX top.cnt)',
+                         "(list (reverse '(1 2 3)) (sort '(2 3 1 0)) (car '(4 5)) (sum '(1 2)) INDEX)"])
         marks.append(('run', len(steps), prog))
         steps.append(('run', prog))
         steps.append(('state',))
